@@ -23,6 +23,11 @@ def main(argv):
         print(data.get("what"))
         print(data.get("replay", "(no stand-alone snippet; see file)"))
         return 0
+    # the thorough tiers keep hundreds of thousands of results alive; with the default thresholds
+    # the full (generation-2) collections over that heap take seconds each and ran several times
+    # inside a single fast case, which then looked like a watchdog timeout
+    import gc
+    gc.set_threshold(50000, 50, 200)
     mod = importlib.import_module("props." + prop.lower())
     try:
         return mod.run(tier, seed)
